@@ -205,11 +205,11 @@ class C10(PropBase):
     # -- generation
     def gen(self, rng, tier, focus=None):
         out = []
-        per = 30 if tier == "quick" else 800
+        per = 40 if tier == "quick" else 800
         for kind in BOUNDARY:
             for _ in range(per):
                 out.append(self.mk(rng, kind))
-        n = 700 if tier == "quick" else 30000
+        n = 1500 if tier == "quick" else 30000
         for _ in range(n):
             out.append(self.mk(rng, "random"))
         return out
